@@ -216,6 +216,41 @@ func checkC15(c *Ctx) {
 		c.Ob("C15.L10", pkg, funcKey(cc), "cached-value-fresh", pos, ok && n > 0, "the cached challenge value is not a freshly made slice (it would alias the returned digest or hash-internal storage)")
 	}
 
+	// every binding recorded by Bind is a fresh slice: a sub-slice of a buffer kept in the transcript
+	// (recycled after a challenge is computed) would be overwritten by the next Bind while an
+	// uncomputed challenge still refers to it
+	{
+		ok := true
+		pos := p.Pos(bind.Pos())
+		n := 0
+		for _, x := range vb.Instrs() {
+			call, isCall := x.in.(*ssa.Call)
+			if !isCall {
+				continue
+			}
+			bi, isB := call.Call.Value.(*ssa.Builtin)
+			if !isB || bi.Name() != "append" || len(call.Call.Args) != 2 {
+				continue
+			}
+			st, isSl := call.Type().Underlying().(*types.Slice)
+			if !isSl {
+				continue
+			}
+			if _, inner := st.Elem().Underlying().(*types.Slice); !inner {
+				continue
+			}
+			// append(bindings, v): the variadic argument is a slice literal built in a local array
+			for _, el := range appendedElements(call.Call.Args[1]) {
+				n++
+				if !ivFresh(vb, el, x.fr, 0) {
+					ok = false
+					pos = p.Pos(instrPos(x.in))
+				}
+			}
+		}
+		c.Ob("C15.L10", pkg, funcKey(bind), "binding-fresh", pos, ok && n > 0, "a value recorded by Bind is not a freshly made slice: it shares storage with the caller's argument or with a buffer of the transcript that later calls overwrite")
+	}
+
 	// ---- ORDER: what is hashed, in which order (on the inlined view of ComputeChallenge)
 	c.Rule("C15.order", "ORDER: on the computing path Reset dominates the first Write; Write(id) dominates Write(previous.value) and the bindings loop; Write(previous.value) lies on the position != 0 arm and cannot follow the bindings loop; the bindings are written by an ascending index loop over the binding slice; Sum is dominated by Write(id), follows the loop, and its result is what is returned and copied into the cache — decided on the inlined view of ComputeChallenge (helpers of the package expanded at their call sites)", 1)
 	c.Instance("C15.order", 1)
@@ -526,4 +561,30 @@ func freshByteSlice(v ssa.Value) bool {
 		}
 	}
 	return false
+}
+
+// appendedElements: the element values of the variadic argument of append(s, e1, e2...) (go/ssa
+// builds a local array, stores the elements and slices it).
+func appendedElements(v ssa.Value) []ssa.Value {
+	sl, ok := v.(*ssa.Slice)
+	if !ok {
+		return nil
+	}
+	al, ok := sl.X.(*ssa.Alloc)
+	if !ok || al.Referrers() == nil {
+		return nil
+	}
+	var out []ssa.Value
+	for _, r := range *al.Referrers() {
+		ia, ok := r.(*ssa.IndexAddr)
+		if !ok || ia.Referrers() == nil {
+			continue
+		}
+		for _, rr := range *ia.Referrers() {
+			if st, ok := rr.(*ssa.Store); ok && st.Addr == ia {
+				out = append(out, st.Val)
+			}
+		}
+	}
+	return out
 }
